@@ -17,6 +17,7 @@
   Errors carry paths relative to the node being merged; callers prepend the key.
 -/
 import AY.Model.Flags
+import AY.Model.TableCheck
 namespace AY
 
 /-! ### depth (fuel) -/
@@ -144,12 +145,13 @@ def maybePromote (sf : Flags) (sk : CompKind) (scs : List (Key × Node)) (o : No
       else .error .unsupported   -- dict content moved into a list subclass: `_children` gets str keys
     else .ok (.comp sf sk scs, true)
 
-/-- `ConfigNode.ayns.on_merge_impl`: the higher priority wins, the newer among equals. -/
+/-- `ConfigNode.ayns.on_merge_impl`: the higher priority wins, the newer among equals
+    (`_replace_other` ends with `_propagate_implicit_values` on the surviving node). -/
 def leafRule (s o : Node) : Node × Bool :=
   if hasPrio s.flags o.flags false then
-    (s.setFlags (replaceOtherFlags s.flags o.flags), true)
+    (propagate (s.setFlags (replaceOtherFlags s.flags o.flags)), true)
   else
-    (o.setFlags (replaceOtherFlags o.flags s.flags), false)
+    (propagate (o.setFlags (replaceOtherFlags o.flags s.flags)), false)
 
 /-- replace the stored value of an existing child without re-adoption (the child object was
     mutated in place) -/
@@ -210,7 +212,9 @@ def finishMerge (sf : Flags) (sk : CompKind) (scs : List (Key × Node)) (o : Nod
     | .error e => .error e
     | .ok (r, same) => .ok (propagate r, same)
   else
-    maybePromote (replaceOtherFlags sf o.flags) sk scs o
+    match maybePromote (replaceOtherFlags sf o.flags) sk scs o with
+    | .error e => .error e
+    | .ok (r, same) => .ok (propagate r, same)
 
 /-- `maybe_keep` of ComposedNode.on_merge_impl (paths relative to the merged node). -/
 def maybeKeep (o : Node) (p : Path) (n : Node) : Bool :=
@@ -230,7 +234,7 @@ def compMerge (rec : Node → Node → Except Err (Node × Bool)) (sf : Flags) (
         | none =>
           match maybePromote (replaceOtherFlags of sf) ok ocs r.1 with
           | .error e => .error e
-          | .ok (res, sameAsOther) => .ok (res, !sameAsOther)
+          | .ok (res, sameAsOther) => .ok (propagate res, !sameAsOther)
       else
         match mergeLoop rec sf sk r.1.children ocs with
         | .error e => .error e
@@ -273,14 +277,14 @@ def funcMerge (rec : Node → Node → Except Err (Node × Bool)) (sf : Flags) (
           .ok (propagate (.comp (replaceSelfFlags sf of) (sk.setFunc lk.strVal) []), true)
         else
           .ok (propagate (.comp (replaceSelfFlags sf of) sk scs), true)
-      else .ok (.comp (replaceOtherFlags sf of) sk scs, true)
+      else .ok (propagate (.comp (replaceOtherFlags sf of) sk scs), true)
     else compMerge rec sf sk scs o
   | .comp of ok _ =>
     match ok.func? with
     | none => compMerge rec sf sk scs o
     | some g =>
       if g != f then
-        if !hasPrio of sf true then .ok (.comp (replaceOtherFlags sf of) sk scs, true)
+        if !hasPrio of sf true then .ok (propagate (.comp (replaceOtherFlags sf of) sk scs), true)
         else compMerge rec sf (sk.setFunc g) (if eDel o then [] else scs) o
       else compMerge rec sf sk scs o
 
